@@ -487,11 +487,24 @@ func DecodeMatchField(class uint16, field uint8, length uint8, hasMask bool, dat
 			return nil, err
 		}
 		return val, nil
-	} else {
-		log.Panicf("Unsupported match field: %d in class: %d", field, class)
+	} else if class == OXM_CLASS_NXM_0 {
+		var val util.Message
+		switch field {
+		case NXM_OF_ARP_SPA:
+			val = new(ArpXPaField)
+		case NXM_OF_ARP_TPA:
+			val = new(ArpXPaField)
+		default:
+			return nil, fmt.Errorf("Unsupported match field: %d in class: %d", field, class)
+		}
+		err := val.UnmarshalBinary(data)
+		if err != nil {
+			return nil, err
+		}
+		return val, nil
 	}
 
-	return nil, nil
+	return nil, fmt.Errorf("Unsupported match field: %d in class: %d", field, class)
 }
 
 // ofp_match_type 1.3
